@@ -67,12 +67,17 @@ type VerifJWTSetup struct {
 	SigValid     bool // signed with the key published under its kid
 	TrustedIssue bool // iss is the trusted issuer
 	JWKSFails    bool // the key-set endpoint cannot be reached
+	Alg          string // signature algorithm of the token and its key ("" = ES256)
 }
 
 // VerifNewJWT builds a real jwt authenticator reading `Authorization: Bearer`. It returns the authenticator,
 // the bearer value to present and a cleanup function (native test server).
 func VerifNewJWT(s VerifJWTSetup, fallback bool) (Authenticator, string, func()) {
 	const issuer = "https://trusted.example"
+	alg := s.Alg
+	if alg == "" {
+		alg = "ES256"
+	}
 	iss := issuer
 	if !s.TrustedIssue {
 		iss = "https://evil.example"
@@ -86,10 +91,10 @@ func VerifNewJWT(s VerifJWTSetup, fallback bool) (Authenticator, string, func())
 	a.ttl = &zero
 	if verifapi.Symbolic() {
 		VerifJWTParseOK = s.Parsable
-		VerifJWTHeader = jose.Header{Algorithm: "ES256", KeyID: "k1"}
+		VerifJWTHeader = jose.Header{Algorithm: alg, KeyID: "k1"}
 		VerifJWTSigValid = map[string]bool{"k1": s.SigValid}
 		VerifJWTClaims, VerifJWTMapClaims = claims, map[string]any{"iss": iss, "sub": "alice"}
-		VerifJWKS = &jose.JSONWebKeySet{Keys: []jose.JSONWebKey{{KeyID: "k1", Algorithm: "ES256"}}}
+		VerifJWKS = &jose.JSONWebKeySet{Keys: []jose.JSONWebKey{{KeyID: "k1", Algorithm: alg}}}
 		VerifJWKSErr = nil
 		a.r = vMetadataResolver{md: oauth2.ServerMetadata{Issuer: issuer, JWKSEndpoint: &endpoint.Endpoint{URL: "http://jwks.verif/keys", Method: "GET"}}}
 		if s.JWKSFails {
@@ -101,12 +106,12 @@ func VerifNewJWT(s VerifJWTSetup, fallback bool) (Authenticator, string, func())
 		return a, "jws.payload.signature", func() {}
 	}
 	// natively: a really signed token and a key-set server
-	signing, public := vC05NativeKey("ES256")
+	signing, public := vC05NativeKey(alg)
 	published := public
 	if !s.SigValid {
-		_, published = vC05NativeKey("ES256")
+		_, published = vC05NativeKey(alg)
 	}
-	signer, err := jose.NewSigner(jose.SigningKey{Algorithm: jose.ES256, Key: signing}, (&jose.SignerOptions{}).WithType("JWT").WithHeader("kid", "k1"))
+	signer, err := jose.NewSigner(jose.SigningKey{Algorithm: jose.SignatureAlgorithm(alg), Key: signing}, (&jose.SignerOptions{}).WithType("JWT").WithHeader("kid", "k1"))
 	if err != nil {
 		panic(err)
 	}
@@ -116,7 +121,7 @@ func VerifNewJWT(s VerifJWTSetup, fallback bool) (Authenticator, string, func())
 	}
 	srv := httptest.NewServer(http.HandlerFunc(func(rw http.ResponseWriter, _ *http.Request) {
 		rw.Header().Set("Content-Type", "application/json")
-		json.NewEncoder(rw).Encode(jose.JSONWebKeySet{Keys: []jose.JSONWebKey{{KeyID: "k1", Algorithm: "ES256", Key: published, Use: "sig"}}})
+		json.NewEncoder(rw).Encode(jose.JSONWebKeySet{Keys: []jose.JSONWebKey{{KeyID: "k1", Algorithm: alg, Key: published, Use: "sig"}}})
 	}))
 	url := srv.URL
 	if s.JWKSFails {
